@@ -225,7 +225,7 @@ def load(path):
         for a, t in f.args:
             f.locals[a] = t
         fns.setdefault(name, []).append(f)
-    for m in re.finditer(r'^(?:const|static) ([^\n]*?): ([^\n]*?) = \{\n(.*?)^\}\n', text, re.S | re.M):
+    for m in re.finditer(r'^(?:const|static) ([^\n]*?::promoted\[\d+\]|[^\n:]*?): ([^\n]*?) = \{\n(.*?)^\}\n', text, re.S | re.M):
         name, ty, body = m.groups()
         f = Fn(name, name, body, text.count('\n', 0, m.start()) + 1)
         f.ret = ty
